@@ -188,7 +188,69 @@ def eval_test(t, atom):
     return atom(t)
 
 
-def r3_partition(L, repo):
+def _r3_tick_fold(L, repo):
+    """clck_tick() folded on witness queues (messages as objects with a frame number; the forwarder as recording oracle):
+    for the tick of frame F - F in the middle of the hyperframe, F = 0 right after the wrap, F = the last frame - exactly
+    the messages queued for F are put on the air, with the frame number they were queued for; messages whose frame has
+    passed (by 1, 2, half a hyperframe minus one) leave the queue without being sent; messages for later frames (by 1,
+    by half a hyperframe) stay queued, in order.  -> False when the method does not fold"""
+    from consteval import Ev, Unknown, Raised, Opaque
+    ci, fd = repo.need_method("transceiver", "Transceiver", "clck_tick")
+    F_ = rel("transceiver")
+    fn_ = "Transceiver.clck_tick"
+    ps = params(fd)
+    HYPER = fold_const(repo)
+    rows = []
+    for F0 in (1000, 0, HYPER - 1):
+        fns = [(F0 - 2) % HYPER, F0, (F0 + 1) % HYPER, (F0 - 1) % HYPER, F0, (F0 + HYPER // 2) % HYPER,
+               (F0 - (HYPER // 2 - 1)) % HYPER, (F0 + 5) % HYPER]
+        queue = [{"fn": f, "tn": i % 8, "ident": i, "desc_hdr": (lambda a: "fn=.. tn=..")} for i, f in enumerate(fns)]
+        sent = []
+        warned = []
+
+        def fwd_hook(a, sent=sent):
+            m = a[1] if len(a) > 1 else None
+            sent.append((m.get("ident"), m.get("fn")) if isinstance(m, dict) else m)
+        e = Ev(repo, ci.mod, env={"self.running": True, "self._tx_queue": list(queue), "self._tx_queue_lock": Opaque("lock"),
+                                  ps[1]: Opaque("fwd"), ps[2]: F0}, self_cls=ci)
+        e.ignore_calls = ("log.debug", "log.info", "logging.")
+        e.hooks = {"fwd.forward_msg": fwd_hook, "log.warning": lambda a, warned=warned: warned.append(1),
+                   "log.error": lambda a, warned=warned: warned.append(1)}
+        try:
+            e.run_block(fd.body)
+        except (Unknown, Raised):
+            return False
+        left = e.env.get("self._tx_queue")
+        if not isinstance(left, list):
+            return False
+        want_sent = [(i, f) for i, f in enumerate(fns) if f == F0]
+        want_left = [i for i, f in enumerate(fns) if f != F0 and (F0 - f) % HYPER >= HYPER // 2]
+        n_stale = len(fns) - len(want_sent) - len(want_left)
+        rows.append((F0, want_sent, sent, want_left, [m.get("ident") if isinstance(m, dict) else m for m in left], n_stale, len(warned)))
+    L.fn(F_, fn_)
+    for F0, ws, gs_, wl, gl, n_stale, n_warn in rows:
+        L.ob("C03.R3", F_, fn_, "tick of frame %d: each of the %d bursts whose frame has passed is reported (warning / error log line)" % (F0, n_stale),
+             "at least %d log lines" % n_stale, "%d log lines" % n_warn, n_warn >= n_stale, fd.lineno)
+        L.require("C03.R3", F_, fn_, "tick of frame %d: exactly the bursts queued for this frame go on the air, with their own frame number, in queue order" % F0,
+                  ws, gs_, line=fd.lineno)
+        L.require("C03.R3", F_, fn_, "tick of frame %d: bursts for later frames stay queued in order, everything else has left the queue" % F0,
+                  wl, gl, line=fd.lineno)
+    return True
+
+
+def fold_const(repo):
+    from consteval import fold as _fold
+    return _fold(repo, repo.mod("gsm_shared"), ast.parse("GSM_HYPERFRAME", mode="eval").body)
+
+
+def r3_partition(L, repo, force_shape=False):
+    if not force_shape and _r3_tick_fold(L, repo):
+        L.extra["c03_r3_fold"] = True
+        # the fold observes what is sent and what stays queued; it does not observe the critical section or the
+        # stale report: those clauses of the walk stay real obligations
+        L.structural("C03.R3 decision table of the partition loop in clck_tick", r3_partition, L, repo, True,
+                     hard=lambda rule, key: rule == "C03.R1" or "stale message is reported" in key or "critical section" in key)
+        return
     F = rel("transceiver")
     ci, fd = repo.need_method("transceiver", "Transceiver", "clck_tick")
     fn = "Transceiver.clck_tick"
@@ -399,6 +461,11 @@ def r4_modular(L, repo, tier):
                         return "msg"
                     return None
                 ks = {kind(a), kind(b)}
+                st_ = c
+                while st_ is not None and not isinstance(st_, ast.stmt):
+                    st_ = getattr(st_, "_parent", None)
+                if isinstance(st_, ast.Expr) and isinstance(st_.value, ast.Call) and canon(st_.value.func).startswith(("log.", "logging.")):
+                    continue        # wording of a log line: decides nothing
                 if ks == {"clk", "msg"}:
                     n_sites += 1
                     ordering = isinstance(c.ops[0], (ast.Lt, ast.LtE, ast.Gt, ast.GtE))
